@@ -145,7 +145,6 @@ func c17Encoded() []string {
 	return out
 }
 
-
 // the path starts that matter right behind an authority: whatever a reduction of "scheme://own-host<path>"
 // to "<path>" would hand to http.Redirect
 func c17PathStarts() []string {
@@ -676,6 +675,12 @@ func TestVerif_C17(t *testing.T) {
 		desc            string
 	}
 	var flows []flowObs
+	type pageObs struct {
+		comeback             bool
+		u, eu, eprof, hidden string
+		desc                 string
+	}
+	var pages []pageObs
 	envForce := c17Env(t, provider.URL, true, nil)
 	flowPages := []struct {
 		path     string
@@ -731,9 +736,19 @@ func TestVerif_C17(t *testing.T) {
 	}{{false, env}, {true, envForce}} {
 		for _, pg := range flowPages {
 			for _, tf := range targetForms {
-				for _, cookieKind := range []string{"none", "garbage"} {
-					desc := fmt.Sprintf("force_redirect=%v GET %s%s (%s) cookie=%s", cfg.force, tf.prefix, pg.path, tf.name, cookieKind)
-					req, err := c17RawRequest("GET", tf.prefix+pg.path, tf.host, "")
+				// GET without and with a useless cookie; POST carrying a login_destination field of its own
+				for _, variant := range []struct{ method, cookieKind, formDest string }{
+					{"GET", "none", ""}, {"GET", "garbage", ""},
+					{"POST", "none", "//evil.example/x"}, {"POST", "none", "/ok?next=1"}, {"POST", "none", "https://evil.example/"},
+				} {
+					cookieKind := variant.cookieKind
+					desc := fmt.Sprintf("force_redirect=%v %s %s%s (%s) cookie=%s", cfg.force, variant.method, tf.prefix, pg.path, tf.name, cookieKind)
+					body := ""
+					if variant.method == "POST" {
+						body = "login_destination=" + url.QueryEscape(variant.formDest)
+						desc += " body=" + body
+					}
+					req, err := c17RawRequest(variant.method, tf.prefix+pg.path, tf.host, body)
 					if err != nil {
 						res.bump("flow:unparsable-request-line:" + tf.name)
 						continue
@@ -757,7 +772,7 @@ func TestVerif_C17(t *testing.T) {
 						if !verifSameOrigin(loc) {
 							res.hit(verifHit{Key: "C17:offorigin:" + via, Oracle: "Location at the end of the federated round trip resolves off the keymaster origin (WHATWG) or carries control bytes",
 								What: fmt.Sprintf("%s; r.URL.String()=%q; the prompt %s; posted login_destination %q; callback Location %q", desc, ustr, map[int]string{0: "was the login page", 1: "went to the provider by itself"}[fo.kind], fo.posted, loc),
-								Case: map[string]interface{}{"request_line": "GET " + tf.prefix + pg.path + " HTTP/1.1", "host": tf.host, "force_redirect": cfg.force, "cookie": cookieKind}, Observed: loc})
+								Case: map[string]interface{}{"request_line": variant.method + " " + tf.prefix + pg.path + " HTTP/1.1", "host": tf.host, "body": body, "force_redirect": cfg.force, "cookie": cookieKind}, Observed: loc})
 						}
 					}
 					if c, st, ok := providerRedirect(rr); ok {
@@ -787,6 +802,9 @@ func TestVerif_C17(t *testing.T) {
 					forms := c17Forms(rr.Body.Bytes())
 					if f, ok := forms[oauth2LoginBeginPath]; ok {
 						fo.posted = f.Get("login_destination")
+						if variant.method == "GET" {
+							pages = append(pages, pageObs{comeback: pg.comeback, u: ustr, eu: ensureHTMLSafeLoginDestination(ustr), eprof: ensureHTMLSafeLoginDestination(profilePath), hidden: fo.posted, desc: desc})
+						}
 						preq := verifNewRequest("POST", oauth2LoginBeginPath, f)
 						prr, _ := cfg.e.serve(preq)
 						if c, st, ok := providerRedirect(prr); ok {
@@ -802,7 +820,7 @@ func TestVerif_C17(t *testing.T) {
 						res.bump("flow:401-without-login-page") // e.g. a Host naming another port: plain 401, no page, nothing to follow
 					}
 					// the password form of the same page (when it is shown)
-					if f, ok := forms["/api/v0/login"]; ok && cookieKind == "none" {
+					if f, ok := forms["/api/v0/login"]; ok && cookieKind == "none" && variant.method == "GET" {
 						f.Set("username", "alice")
 						f.Set("password", "alicepw")
 						preq := verifNewRequest("POST", "/api/v0/login", f)
@@ -936,7 +954,12 @@ func TestVerif_C17(t *testing.T) {
 		sb.WriteString("].\n")
 	}
 	sb.WriteString("Definition c17_mismatches := Eval vm_compute in mismatches c17_bad (" + strings.Join(names, " ++ ") + ").\nPrint c17_mismatches.\n")
-	sb.WriteString("Definition c17_ncases := Eval vm_compute in length (" + strings.Join(names, " ++ ") + ").\nPrint c17_ncases.\n")
+	// (a unary count of > 100 000 cases overflows the stack when it is read back: count per shard, add in N)
+	var lens []string
+	for _, n := range names {
+		lens = append(lens, "N.of_nat (length "+n+")")
+	}
+	sb.WriteString("Definition c17_ncases := Eval vm_compute in (" + strings.Join(lens, " + ") + ")%N.\nPrint c17_ncases.\n")
 	sb.WriteString("Definition flow_cases : list (bool * bool * bs * N * bs * bool * bs) := [\n")
 	for j, f := range flows {
 		sep := ";"
@@ -946,6 +969,15 @@ func TestVerif_C17(t *testing.T) {
 		sb.WriteString(fmt.Sprintf(" (%s, %s, %s, %d%%N, %s, %s, %s)%s\n", coqBool(f.force), coqBool(f.comeback), coqPacked([]byte(f.u)), f.kind, coqPacked([]byte(f.posted)), coqBool(f.pf), coqPacked([]byte(f.loc)), sep))
 	}
 	sb.WriteString("].\nDefinition c17_flow_mismatches := Eval vm_compute in mismatches c17_flow_bad flow_cases.\nPrint c17_flow_mismatches.\n")
+	sb.WriteString("Definition page_cases : list (bool * bs * bs * bs * bs) := [\n")
+	for j, pg := range pages {
+		sep := ";"
+		if j == len(pages)-1 {
+			sep = ""
+		}
+		sb.WriteString(fmt.Sprintf(" (%s, %s, %s, %s, %s)%s\n", coqBool(pg.comeback), coqPacked([]byte(pg.u)), coqPacked([]byte(pg.eu)), coqPacked([]byte(pg.eprof)), coqPacked([]byte(pg.hidden)), sep))
+	}
+	sb.WriteString("].\nDefinition c17_page_mismatches := Eval vm_compute in mismatches c17_page_bad page_cases.\nPrint c17_page_mismatches.\n")
 	sb.WriteString("Definition logout_cases : list (bool * bs * bs) := [\n")
 	for j, l := range logouts {
 		sep := ";"
@@ -969,6 +1001,11 @@ func TestVerif_C17(t *testing.T) {
 		fidx.WriteString(fmt.Sprintf("%d\t%s\turl=%q\tprompt-kind=%d\tposted=%q\tlocation=%q\n", i, f.desc, f.u, f.kind, f.posted, f.loc))
 	}
 	ioutil.WriteFile(filepath.Join(verifOut(), "CasesC17flow.idx"), []byte(fidx.String()), 0644)
+	var pidx strings.Builder
+	for i, pg := range pages {
+		pidx.WriteString(fmt.Sprintf("%d\t%s\turl=%q\thidden=%q\n", i, pg.desc, pg.u, pg.hidden))
+	}
+	ioutil.WriteFile(filepath.Join(verifOut(), "CasesC17page.idx"), []byte(pidx.String()), 0644)
 	var lidx strings.Builder
 	for i, l := range logouts {
 		lidx.WriteString(fmt.Sprintf("%d\tuser=%q\tlocation=%q\n", i, l.user, l.loc))
